@@ -61,6 +61,15 @@ def py_records(data):
     return out
 
 
+def raw_lines(data):
+    """split at LF only: the tools built on FilterParallel (and remove_invalid_utf8) keep a trailing CR"""
+    parts = data.split(b"\n")
+    tail = parts.pop()
+    if tail:
+        parts.append(tail)
+    return parts
+
+
 def join(lines):
     return b"".join(l + b"\n" for l in lines)
 
@@ -430,7 +439,7 @@ def main(argv):
         for a, o, data, kind in sc_cases:
             st, out, err = R.run("simple_cleaning", a, data)
             sc_results.append((st, out))
-            recs = py_records(data)
+            recs = raw_lines(data)            # FilterParallel hands lines over unchanged (no CR stripping)
             c.count(("sc", tuple(a), data), nontrivial=len(recs) > 0, bucket="simple_cleaning/" + kind)
             desc = {"tool": "simple_cleaning", "args": a, "stdin_hex": data.hex(), "out_hex": out.hex(), "how": "bin/simple_cleaning %s < stdin" % " ".join(a)}
             if st != 0:
@@ -480,7 +489,7 @@ def main(argv):
                 c.violation("simple_cleaning-exit: -p status %s/%s/%s" % (st, s0, s1), {"tool": "simple_cleaning -p", "in0_hex": d0.hex(), "in1_hex": d1.hex(), "args": a})
                 continue
             kept0, kept1 = set(k0.split(b"\n")[:-1]), set(k1.split(b"\n")[:-1])
-            r0, r1 = py_records(d0), py_records(d1)
+            r0, r1 = raw_lines(d0), raw_lines(d1)
             want = [(x, y) for x, y in zip(r0, r1) if x in kept0 and y in kept1]
             o0, o1 = open(paths[2], "rb").read(), open(paths[3], "rb").read()
             if o0 != join([x for x, _ in want]) or o1 != join([y for _, y in want]):
